@@ -96,7 +96,7 @@ func memShapeFew(mode int) MemSpec {
 // memShape returns one representative memory operand per addressing class.
 func memShape(mode int) MemSpec {
 	shapes16 := []MemSpec{{Base: "BX"}, {Base: "SI", Disp: 4, HasDisp: true}, {Base: "BP", Index: "DI"}, {Disp: 0x1234, HasDisp: true}}
-	shapes32 := []MemSpec{{Base: "EBX"}, {Base: "ESI", Disp: 4, HasDisp: true}, {Base: "EBP", Index: "EDI", Scale: 4, Disp: 300, HasDisp: true}, {Base: "ESP", Disp: 8, HasDisp: true}, {Disp: 0x12345, HasDisp: true}}
+	shapes32 := []MemSpec{{Base: "EBX"}, {Base: "ESI", Disp: 4, HasDisp: true}, {Base: "EBP", Index: "EDI", Scale: 4, Disp: 300, HasDisp: true}, {Base: "ESP", Disp: 8, HasDisp: true}, {Disp: 0x12345, HasDisp: true}, {Index: "ESI", Scale: 4, Disp: 0x100, HasDisp: true}}
 	if vrt.Choose("maddr", 2) == 0 {
 		return shapes16[vrt.Choose("mshape", len(shapes16))]
 	}
